@@ -360,12 +360,12 @@ def lemmas(tier):
                            doc={"S": ["x: BININT1 value in front of the gadget (all 256)", "tail: <=2 arbitrary trailing bytes (may start another opcode)"],
                                 "F": ["template (13: every global-resolving x call-making opcode, OBJ with and without arguments)", "global (15 dangerous/probe names incl. a loaded module with dynamic attributes and a class with a metaclass __getattr__, stdlib packages that are not loaded yet and _codecs.encode with an input-chosen codec)", "fate (3)", "entry point " + name],
                                 "bound": "single gadget" + ("; quick: 4 names, one fate per template, tail <= 1 byte" if q else "")}))
-        L.append(Lemma("mut_" + name, make_mut(e), timeout=400 if q else 3000, replay=(lambda e_: (lambda tpl, ni: _mutations(e_, tpl, ni)))(e),
+        L.append(Lemma("mut_" + name, make_mut(e), timeout=400 if q else 1500, replay=(lambda e_: (lambda tpl, ni: _mutations(e_, tpl, ni)))(e),
                        dry=[{"tpl": 0, "ni": 0}, {"tpl": 7, "ni": 5}],
                        doc={"F": ["solver-partitioned: template x global", "enumerated inside each cell: truncation at every byte position; 1-byte corruption at every %s position with 9 byte values" % ("third" if q else ""),
                                   "entry point " + name], "bound": "listed corruptions"}))
         if not q and name in ("parse", "decompile", "check_safety"):
-            L.append(Lemma("corrupt_" + name, make_corrupt(e), timeout=3000, dry=[{"tpl": 0, "ni": 0, "pos": 3, "b": 0x52}],
+            L.append(Lemma("corrupt_" + name, make_corrupt(e), timeout=600, dry=[{"tpl": 0, "ni": 0, "pos": 3, "b": 0x52}],
                            doc={"S": ["b: the substituted byte takes every value at a pinned position"], "F": ["template x global x position", "entry point " + name],
                                 "bound": "one corrupted byte"}))
     return L
